@@ -253,4 +253,14 @@ example : (deepcopy' #[.list [.ref 1], .list [.int 7]] (.ref 0)).toOption.map (f
   rw [(stored_copy_has_same_content _ _ _ _ hcl (RefsLt.ref (by decide)) hc 3).1]
   rfl
 
+/-- **the copy keeps the aliasing structure**: the stored copy is the original with every address replaced through ONE map that
+    sends two addresses to the same new address exactly when they are the same address — what was shared inside the value
+    stays shared inside the copy (two paths to one object), what was distinct stays distinct, cycles stay cycles; every
+    new object is the old one with its children replaced through that map (`Done`) -/
+theorem stored_copy_keeps_sharing (h : Heap) (v v' : Val) (h' : Heap) (hcl : Closed h) (hv : RefsLt h.size v)
+    (hc : deepcopy' h v = .ok (v', h')) :
+    ∃ m : Memo, Via m v v' ∧ (∀ p, p ∈ m → Done h h' m p) ∧
+      ∀ a1 a2 p1 p2, m.get a1 = some p1 → m.get a2 = some p2 → (p1.2 = p2.2 ↔ a1 = a2) :=
+  deepcopy'_sharing h v v' h' hcl hv hc
+
 end SqProps.C12
